@@ -284,6 +284,14 @@ def relParent (p : Path) : Path :=
   | some q => q
   | none => [.parent]
 
+/-- path_utils.rs: get_parent_directory — the parent of a *directory*: `..` is appended to a
+directory written `.`/`..`/empty, the root is its own parent, otherwise the last name is dropped -/
+def parentDirectory (d : Path) : Path :=
+  match d.getLast? with
+  | some (.normal _) => relParent d
+  | some .root => d
+  | _ => push d [.parent]
+
 def initName : Name := ['i', 'n', 'i', 't']
 
 /-- {Luau,Path}RequireMode::is_module_folder_name -/
@@ -297,7 +305,7 @@ def selfName : Name := ['@', 's', 'e', 'l', 'f']
 /-- head of LuauPathLocator::find_require_path -/
 def luauHead (m : LuauMode) (proj : Path) (req source : Path) : Except FindErr Path :=
   if isRequireRelative req then
-    if isModuleFolderName initName source then .ok (push (relParent (relParent source)) req)
+    if isModuleFolderName initName source then .ok (push (parentDirectory (relParent source)) req)
     else .ok (push (relParent source) req)
   else if !hasRoot req then
     match req with
@@ -450,9 +458,17 @@ def Mode.findHistory (md : Mode) (proj : Path) (isFile : Path → Bool) (calls :
     List (Except FindErr Path) :=
   calls.map fun c => md.find proj isFile c.1 c.2
 
-/-- match_require.rs: match_path_require_call — the string literal of a require call is
-normalised (keeping a leading `.`) before any locator sees it -/
-def matchPathRequireCall (literal : Path) : Path := normalize true literal
+/-- match_require.rs: match_path_require_call / normalize_require_literal — the string literal
+of a require call is normalised before any locator sees it: a relative or absolute literal as
+a whole (keeping a leading `.`); otherwise the first component (a source / alias name) is kept
+and only what follows is normalised (before the fix of F30 the whole literal was normalised
+and `pkg/../m` lost its source name) -/
+def matchPathRequireCall (literal : Path) : Path :=
+  match literal with
+  | .normal n :: rest =>
+    let tail := normalize false rest
+    if tail = [] ∨ tail = [.cur] then [.normal n] else push [.normal n] tail
+  | _ => normalize true literal
 
 /-- `RequireMode::find_require` on a call `require("<literal>")` -/
 def Mode.findCall (md : Mode) (proj : Path) (isFile : Path → Bool) (literal source : Path) :
@@ -470,13 +486,6 @@ def convertRequire (current target : Mode) (proj : Path) (isFile : Path → Bool
 /-- hypothesis of `convert_keeps_target_partial`: the resolved file path is not itself
 spelled relative to the working directory with a leading `.`/`..` (F28) -/
 def HConv (found : Path) : Bool := !isRequireRelative found
-
-/-- hypothesis of `luau_head_module_partial` (F25): the requiring file is named below a named
-directory (`…/dir/init.luau`), so that the parent of its directory can be taken lexically -/
-def HA (source : Path) : Bool :=
-  match source.reverse with
-  | .normal _ :: .normal _ :: _ => true
-  | _ => false
 
 /-- the requiring file path ends in a name -/
 def endsInName (source : Path) : Bool :=
